@@ -244,6 +244,9 @@ def local_origins(body):
     for n in walk(body):
         if n.get('k') in ('let', 'letexpr') and 'init' in n and 'pat' in n:
             pattern_bindings(n['pat'], n['init'], out)
+        if n.get('k') == 'match' and 'TryDesugar' not in (n.get('src') or '') and 'ForLoopDesugar' not in (n.get('src') or ''):
+            for arm in n.get('arms', []):
+                pattern_bindings(arm['pat'], n['scrut'], out)
     return out
 
 
